@@ -22,8 +22,7 @@ open Secs Secs.Sml Secs.Lex
 /-- if any error is reported, no message is returned -/
 theorem all_or_nothing (ual : List Nat) (input : Bytes) (msgs : List Msg) (errs warns : List Diag)
     (h : parse ual input = .done msgs errs warns) : errs ≠ [] → msgs = [] := by
-  unfold parse at h
-  simp only [] at h
+  unfold parse parseToks at h
   split at h
   · cases h
   · rename_i ms s _
@@ -36,8 +35,7 @@ theorem all_returned (ual : List Nat) (input : Bytes) (msgs : List Msg) (warns :
     (h : parse ual input = .done msgs [] warns) :
     ∃ s, parseLoop (((lexAll ual input).filter (fun t => t.kind != .comment)).length + 1)
       { toks := (lexAll ual input).filter (fun t => t.kind != .comment) } [] = some (msgs, s) ∧ s.errs = [] := by
-  unfold parse at h
-  simp only [] at h
+  unfold parse parseToks at h
   split at h
   · cases h
   · rename_i ms s hs
